@@ -15,6 +15,8 @@
     (`_is_analyzed`, `_fields`, `get_name` are executed with them).
   The theorems say that `EsCfg.isMust`, `EsCfg.isShould`, the mix test of `esOperand`, the operation built for an
   implicit operation and the items `esVisit` builds for words and phrases (Model/Es.lean) are these.
+  `visit_boost`, `visit_fuzzy`, `visit_proximity`: which attribute of the item built for the operand receives the number
+  (`proximity_is_generated`: slop when the field in effect is analysed, fuzziness otherwise).
   Modelled, not translated: the constructors of `EWord` / `EPhrase` (`itemOf`: a phrase loses its quotes and has its
   blanks collapsed, the method of a word defaults to `term`, of a phrase to `match_phrase`).
 -/
@@ -147,7 +149,42 @@ theorem phrase_is_generated (c : EsCfg) (x : EsCtx) (v : Str) (l : Lay) :
       Es.visit_phrase_marker_prefix, EsCfg.isAnalyzed, EsCfg.fields, ctxName, ha, hp, hn, Tree.lay] <;>
     (repeat' split) <;> simp_all [itemOf]
 
+/-! ### the modifiers: which attribute of the item built for the operand receives the number -/
+
+/-- the model's setter for the attribute the translated method assigns -/
+def setBy (attr : String) (d : Dec) (en : ETree) : ETree :=
+  if attr = "boost" then setBoost d en
+  else if attr = "fuzziness" then setFuzzy d en
+  else if attr = "slop" then setSlop d en
+  else en
+
+def genProximity (c : EsCfg) (x : EsCtx) : Except PyErr String :=
+  match x.analyzed with
+  | none => Es.visit_proximity_nomarker c.defaultField c.notAnalyzed
+  | some m => Es.visit_proximity_marker c.defaultField c.notAnalyzed m
+
+/-- **slop or fuzziness for `"a b"~n` is the translated decision**: `visit_proximity` assigns `slop` when the field in
+effect is analysed and `fuzziness` otherwise, which is what the model's `esVisit` does with the item of the phrase -/
+theorem proximity_is_generated (c : EsCfg) (x : EsCtx) (d : Dec) (en : ETree) :
+    ∃ a, genProximity c x = .ok a ∧
+      (if c.isAnalyzed x then setSlop d en else setFuzzy d en) = setBy a d en := by
+  unfold genProximity
+  cases ha : x.analyzed with
+  | none =>
+    simp only [Es.visit_proximity_nomarker, EsCfg.isAnalyzed, ha]
+    by_cases h : c.defaultField ∈ c.notAnalyzed <;> simp [h, setBy]
+  | some m =>
+    simp only [Es.visit_proximity_marker, EsCfg.isAnalyzed, ha]
+    cases m <;> simp [setBy]
+
+/-- `visit_fuzzy` assigns `fuzziness`, `visit_boost` assigns `boost`, under every context -/
+theorem fuzzy_boost_are_generated (dflt : Str) (na : List Str) (m : Bool) (d : Dec) (en : ETree) :
+    Es.visit_fuzzy_nomarker dflt na = .ok "fuzziness" ∧ Es.visit_fuzzy_marker dflt na m = .ok "fuzziness" ∧
+    Es.visit_boost_nomarker dflt na = .ok "boost" ∧ Es.visit_boost_marker dflt na m = .ok "boost" ∧
+    setBy "fuzziness" d en = setFuzzy d en ∧ setBy "boost" d en = setBoost d en := by
+  simp [Es.visit_fuzzy_nomarker, Es.visit_fuzzy_marker, Es.visit_boost_nomarker, Es.visit_boost_marker, setBy]
+
 /-- every function the translator was asked for was translated -/
-theorem es_names_complete : Es.esNames.length = 8 := by decide
+theorem es_names_complete : Es.esNames.length = 8 + 6 := by decide
 
 end Luqum.Props.GenEs
